@@ -66,7 +66,7 @@ def theorems_of(pid):
         return []
     return re.findall(r'^\s*(?:Theorem|Corollary)\s+(\w+)', open(path).read(), flags=re.M)
 
-def proof_status(pid):
+def proof_status(pid, thorough=False):
     """Returns dict: obligations, discharged, detail[{theorem, status, assumptions}], forbidden[...]"""
     thms = theorems_of(pid)
     vo = os.path.join(COQ, 'Properties_%s.vo' % pid)
@@ -99,8 +99,22 @@ def proof_status(pid):
         txt = re.sub(r'\(\*.*?\*\)', '', open(f).read(), flags=re.S)
         for m in re.finditer(r'\b(Admitted|admit|Axiom|Parameter|Conjecture|Unset Guard|bypass_check|type-in-type|Admit Obligations)\b', txt):
             forb.append('%s: %s' % (os.path.basename(f), m.group(1)))
+    chk = None
+    if thorough and compiled:
+        # independent re-check of the compiled file and everything it depends on; prints the axioms relied upon
+        t0 = time.time()
+        p = subprocess.run(['coqchk', '-o', '-silent', '-Q', COQ, 'X', 'X.Properties_%s' % pid], stdout=subprocess.PIPE,
+                           stderr=subprocess.STDOUT, text=True, cwd=COQ, timeout=7200)
+        m = re.search(r'\* Axioms:(.*?)\n\s*\n\* Constants', p.stdout, flags=re.S)
+        ax = ' '.join(m.group(1).split()) if m else '?'
+        chk = {'exit': p.returncode, 'axioms': ax, 'seconds': round(time.time() - t0, 1),
+               'summary': ' '.join(p.stdout[-700:].split())[-500:]}
+        log('[coq] coqchk Properties_%s: exit=%d axioms=%s (%.0fs)' % (pid, p.returncode, ax, time.time() - t0))
+        if p.returncode != 0 or ax != '<none>':
+            for d in detail:
+                d['ok'] = False; d['assumptions'] = 'coqchk: exit %d, axioms %s' % (p.returncode, ax)
     return {'obligations': len(thms), 'discharged': sum(1 for d in detail if d['ok']) if not forb else 0,
-            'detail': detail, 'forbidden': forb, 'compiled': compiled}
+            'detail': detail, 'forbidden': forb, 'compiled': compiled, 'coqchk': chk}
 
 # ---------------------------------------------------------------- implementation side
 def build_driver(config):
